@@ -197,7 +197,7 @@ impl Property for C19 {
         "Cases: for each of the 16 fixed types, a valid vector of length C-below (below in 0..=3) and one request exceeding the capacity by d in 1..70 bits: zeros/ones/repeat(C+d) must panic; from_bytes/from_binary/from_hex/read/TryFrom<integer | slice | vector of every other type> must return Err; push, resize, sign_extend, append/prepend/insert (operand of any zoo type), extend and collect must panic. Returning normally is the violation (reported with the resulting len/capacity). Both build profiles run every case. In the profile with debug assertions only: get/set(i>=len), copy_range with start or end > len and split_off(i>len) must panic, on all 18 types. Enumerated: the complete product (type x below x d x operation x fill bit) with the operand type rotating; random adds operand types/positions. Non-trivial: every over-capacity request from a valid state is; distinct by hash of the case (type, operation, start length, d, operand type).".into()
     }
     fn random_cases(&self, tier: Tier) -> u64 {
-        tier.pick(30_000, 300_000)
+        tier.pick(150000, 600000)
     }
     fn strategy(&self, tier: Tier) -> BoxedStrategy<C19Case> {
         let over = (0..NFIXED, 0usize..4, 1usize..70, 0usize..18, any::<bool>(), 0..NT, any::<u16>()).prop_map(|(ty, below, d, o, fill, other, at)| C19Case::Over { ty, below, d, op: OVER_OPS[o], fill, other, at });
